@@ -74,12 +74,26 @@ type tN int
 
 func (n tN) B() int { return int(n) }
 
-type ifA interface{ A() int }
-type ifB interface{ B() int }
+// The interfaces are "sealed" (an unexported method next to the exported ones): reflect counts the unexported
+// method for the interface type but not for the concrete types, so an implementor test that compares method
+// COUNTS instead of method sets goes wrong exactly here.
+type ifA interface {
+	A() int
+	sealed()
+}
+type ifB interface {
+	B() int
+	sealed()
+}
 type ifAB interface {
 	A() int
 	B() int
+	sealed()
 }
+
+func (tS) sealed() {}
+func (tO) sealed() {}
+func (tN) sealed() {}
 type ifN interface{ Nobody() }
 
 const (
